@@ -264,7 +264,7 @@ theorem LogInv.handleRequest {srv : Server} (h : LogInv srv) (cfg : Config) (cn 
   rw [heq] at this
   dsimp only
   split
-  · exact LogInv.closeConn this _
+  · exact LogInv.closeConn (LogInv.arm this _ _) _
   · exact LogInv.arm (LogInv.setMode this _ _) _ _
 
 theorem LogInv.stepEv {srv : Server} (h : LogInv srv) (cfg : Config) (e : Event) : LogInv (stepEv cfg srv e).1 := by
